@@ -1,6 +1,8 @@
 import Driver.SafePtr
+import Driver.BlockAlloc
 
 def main (args : List String) : IO UInt32 := do
   match args with
   | ["safeptr"] => Driver.SafePtr.main; return 0
+  | ["blockalloc"] => Driver.BlockAlloc.main; return 0
   | _ => IO.eprintln "usage: driver <area>"; return 2
